@@ -170,15 +170,21 @@ def build_labware(desc):
         kw["component_names"] = {
             well_id(int(k.split(",")[0]), int(k.split(",")[1])): v for k, v in names.items()
         }
-    return robotools.Labware(
+    arr = np.array(desc["initial"], dtype=float)
+    lw = robotools.Labware(
         desc["name"],
         desc["rows"],
         desc["columns"],
         min_volume=desc["min_volume"],
         max_volume=desc["max_volume"],
-        initial_volumes=np.array(desc["initial"], dtype=float),
+        initial_volumes=arr,
         **kw,
     )
+    # the caller's own array, kept so that monitors can check that the labware does not alias it
+    CALLER_ARRAYS[id(lw)] = arr
+    if len(CALLER_ARRAYS) > 64:
+        CALLER_ARRAYS.pop(next(iter(CALLER_ARRAYS)))
+    return lw
 
 
 def build_worklist(wcfg, device=None, filepath=None):
@@ -192,6 +198,9 @@ def build_worklist(wcfg, device=None, filepath=None):
         auto_split=wcfg.get("auto_split", True),
         diti_mode=wcfg.get("diti_mode", False),
     )
+
+
+CALLER_ARRAYS = {}
 
 
 class Outcome:
